@@ -368,4 +368,28 @@ Section PolicyJson.
       DOk (a, {| p_effect := is_key eff "permit"; p_principal := sp; p_action := sa; p_resource := sr; p_conds := cs |})))))))
     | _ => DErr
     end.
+
+  (* ---- policy sets: policy_set.go MarshalJSON / UnmarshalJSON over internal/json PolicySetJSON {"staticPolicies": {id: policy}} ---- *)
+  Definition enc_policy_set (ps : list (str * (list (str * str) * policy))) : json :=
+    JObj [(k "staticPolicies", JObj (rec_of_list (map (fun ip => (fst ip, enc_policy (fst (snd ip)) (snd (snd ip)))) ps)))].
+
+  (* a null policy is rejected by name; anything else is Policy.UnmarshalJSON *)
+  Definition dec_policy_set (j : json) : dres (list (str * (list (str * str) * policy))) :=
+    if any_dups (S (jdepth j)) j then DUnk else
+    match j with
+    | JNull => DOk []
+    | JObj m =>
+        if negb (struct_ok ["staticPolicies"]%string m) then DUnk else
+        match jget (k "staticPolicies") m with
+        | None | Some JNull => DOk []
+        | Some (JObj pm) =>
+            dbind (dall (map (fun kv : str * json => match snd kv with
+                                                      | JNull => DErr
+                                                      | x => dbind (dec_policy x) (fun ap => DOk (fst kv, ap))
+                                                      end) pm))
+                  (fun l => DOk (rec_of_list l))
+        | Some _ => DErr
+        end
+    | _ => DErr
+    end.
 End PolicyJson.
